@@ -8,8 +8,10 @@ package webrtc
 import (
 	"errors"
 	"io"
+	"sync"
 
 	"github.com/pion/ice/v4"
+	"github.com/pion/interceptor"
 	"github.com/pion/logging"
 	"github.com/pion/sdp/v3"
 )
@@ -228,5 +230,149 @@ func VerifC30ErrClass(err error) string {
 		return "missing-pwd"
 	default:
 		return "other"
+	}
+}
+
+// VerifC30HandleUnknownRTPPacket runs handleUnknownRTPPacket (the first thing
+// done with a decrypted packet of an undeclared SSRC).
+func VerifC30HandleUnknownRTPPacket(buf []byte, midID, ridID, rsidID uint8) (string, string, string, bool, error) {
+	return handleUnknownRTPPacket(buf, midID, ridID, rsidID)
+}
+
+// VerifC30IncomingGuard is the peeked-packet guard of handleIncomingSSRC up to
+// the payload type: a buffer of the receive MTU, the first bytes of the packet
+// peeked into it, the length check, b[1].
+func (pc *PeerConnection) VerifC30IncomingGuard(pkt []byte) (uint8, error) {
+	b := make([]byte, pc.api.settingEngine.getReceiveMTU())
+	i := copy(b, pkt)
+	if i < 4 {
+		return 0, errRTPTooShort
+	}
+
+	return b[1] & 0x7f, nil
+}
+
+// VerifC30UndeclaredOnRemote runs the part of handleIncomingSSRC that needs no
+// SRTP stream: the declared-SSRC check on the current remote description, the
+// single-section heuristic and the payload-type fallback, each of which ends in
+// handleUndeclaredSSRC.
+func (pc *PeerConnection) VerifC30UndeclaredOnRemote(ssrc uint32, payloadType uint8) (bool, error) {
+	remoteDescription := pc.RemoteDescription()
+	if remoteDescription == nil || remoteDescription.parsed == nil {
+		return false, errPeerConnRemoteDescriptionNil
+	}
+	for _, track := range trackDetailsFromSDP(pc.log, remoteDescription.parsed) {
+		if track.rtxSsrc != nil && SSRC(ssrc) == *track.rtxSsrc {
+			return false, nil
+		}
+		if track.fecSsrc != nil && SSRC(ssrc) == *track.fecSsrc {
+			return false, nil
+		}
+		for _, s := range track.ssrcs {
+			if s == SSRC(ssrc) {
+				return false, nil
+			}
+		}
+	}
+	if len(remoteDescription.parsed.MediaDescriptions) == 1 {
+		if handled, err := pc.handleUndeclaredSSRC(SSRC(ssrc), remoteDescription.parsed.MediaDescriptions[0]); handled || err != nil {
+			return handled, err
+		}
+	}
+	if _, err := pc.api.mediaEngine.getRTPParametersByPayloadType(PayloadType(payloadType)); err != nil {
+		return false, err
+	}
+	if m, ok := pc.findMediaSectionByPayloadType(PayloadType(payloadType), remoteDescription); ok {
+		return pc.handleUndeclaredSSRC(SSRC(ssrc), m)
+	}
+
+	return false, nil
+}
+
+// VerifC30CheckAndUpdateTrack runs TrackRemote.checkAndUpdateTrack (first
+// packet of a declared SSRC) on a fresh receiver of the given kind.
+func (pc *PeerConnection) VerifC30CheckAndUpdateTrack(kind RTPCodecType, pkt []byte) error {
+	r, err := pc.api.NewRTPReceiver(kind, pc.dtlsTransport)
+	if err != nil {
+		return err
+	}
+	r.configureReceive(RTPReceiveParameters{Encodings: []RTPDecodingParameters{{RTPCodingParameters{SSRC: 1}}}})
+
+	return r.Track().checkAndUpdateTrack(pkt)
+}
+
+// VerifC30RTXResult is one packet delivered by the repair-stream reader.
+type VerifC30RTXResult struct {
+	Packet  []byte
+	RTXPT   uint8
+	RTXSeq  uint16
+	RTXSSRC uint32
+}
+
+// VerifC30RTXUnwrap drives the goroutine started by maybeStartRepairStreamReader
+// with scripted reads: every element of fills is copied into the pool buffer
+// (len = receive MTU) and ns[i] is reported as the number of bytes read. It
+// returns what arrives on the repair channel (dropped packets leave no trace).
+// A panic in that goroutine kills the process, as it would in production.
+func (pc *PeerConnection) VerifC30RTXUnwrap(fills [][]byte, ns []int, pt uint8, ssrc uint32) ([]VerifC30RTXResult, error) {
+	r, err := pc.api.NewRTPReceiver(RTPCodecTypeVideo, pc.dtlsTransport)
+	if err != nil {
+		return nil, err
+	}
+	r.configureReceive(RTPReceiveParameters{Encodings: []RTPDecodingParameters{{
+		RTPCodingParameters: RTPCodingParameters{SSRC: SSRC(ssrc), RTX: RTPRtxParameters{SSRC: 77}},
+	}}})
+	track := r.Track()
+	track.mu.Lock()
+	track.payloadType = PayloadType(pt)
+	track.mu.Unlock()
+
+	var mu sync.Mutex
+	next := 0
+	done := make(chan struct{})
+	reader := interceptor.RTPReaderFunc(func(b []byte, a interceptor.Attributes) (int, interceptor.Attributes, error) {
+		mu.Lock()
+		defer mu.Unlock()
+		if next >= len(fills) {
+			if next == len(fills) {
+				close(done)
+			}
+			next++
+
+			return 0, nil, io.EOF
+		}
+		copy(b, fills[next])
+		n := ns[next]
+		next++
+
+		return n, a, nil
+	})
+	info := &interceptor.StreamInfo{SSRC: 77}
+	if err = r.receiveForRtx(SSRC(77), "", info, nil, reader, true, nil, nil); err != nil {
+		return nil, err
+	}
+	<-done
+
+	r.mu.RLock()
+	ch := r.tracks[0].repairStreamChannel
+	r.mu.RUnlock()
+	out := []VerifC30RTXResult{}
+	for {
+		select {
+		case p := <-ch:
+			res := VerifC30RTXResult{Packet: append([]byte{}, p.pkt...)}
+			if v, ok := p.attributes.Get(AttributeRtxPayloadType).(uint8); ok {
+				res.RTXPT = v
+			}
+			if v, ok := p.attributes.Get(AttributeRtxSequenceNumber).(uint16); ok {
+				res.RTXSeq = v
+			}
+			if v, ok := p.attributes.Get(AttributeRtxSsrc).(uint32); ok {
+				res.RTXSSRC = v
+			}
+			out = append(out, res)
+		default:
+			return out, nil
+		}
 	}
 }
